@@ -12,7 +12,7 @@ From Coq Require Import List NArith Arith Bool.
 From RT Require Import Model.StackTrace Model.StackProto Proofs.StackInvProofs Proofs.SnapshotProofs.
 Import ListNotations.
 
-Theorem C06_crash_atomic : forall size_oracle attempts tabs scripts sched,
+Theorem C06_crash_atomic : forall size_oracle attempts tabs (scripts : list (bool * list apiop)) sched,
   init_ok tabs ->
   c06_ok (trace_of size_oracle attempts tabs scripts sched) = true.
 Proof. exact c06_all_traces. Qed.
@@ -21,11 +21,11 @@ Print Assumptions C06_crash_atomic.
 (* non-vacuity: a compaction killed right after its commit, a second handle carrying on *)
 Local Open Scope N_scope.
 Definition c06_tabs : list (nat * tfile) :=
-  [(0%nat, {| tf_min := 1; tf_max := 1; tf_txs := [100%nat]; tf_size := 100 |});
-   (1%nat, {| tf_min := 2; tf_max := 2; tf_txs := [101%nat]; tf_size := 100 |})].
+  [(0%nat, {| tf_min := 1; tf_max := 1; tf_txs := [100%nat]; tf_size := 100; tf_hash := false |});
+   (1%nat, {| tf_min := 2; tf_max := 2; tf_txs := [101%nat]; tf_size := 100; tf_hash := false |})].
 Example C06_ex :
   let sched := map (fun _ => Step 0 None) (seq 0 15) ++ [Crash 0] ++ map (fun _ => Step 1 None) (seq 0 30) in
-  let tr := trace_of (fun _ => 100) 50 c06_tabs [[AOpen; ACompactAll]; [AOpen; AAdd 7 false; ARead]] sched in
+  let tr := trace_of (fun _ => 100) 50 c06_tabs [(false, [AOpen; ACompactAll]); (false, [AOpen; AAdd 7 false; ARead])] sched in
   c06_ok tr = true /\ existsb (fun e => match e with ECrash 0 => true | _ => false end) tr = true /\
   existsb (fun e => match e with ERet 1 ARead (RView _ (Some 7%nat)) => true | _ => false end) tr = true.
 Proof. vm_compute. auto. Qed.
